@@ -28,6 +28,8 @@ enum Tok {
     Poll,
     Drain,
     DropVec,
+    /// late stacking: build the second stage on the (polled) first one now
+    Stack,
 }
 
 #[derive(Clone, Copy, Debug, PartialEq, Eq, Hash)]
@@ -133,6 +135,9 @@ struct Cfg {
     /// Keep `dynamic_*_with_initial_value` adapters as values and build the
     /// next stage on them (into_parts with a non-zero limit).
     via_adapter: bool,
+    /// Two stages; the second one is stacked on the first by a `Stack` token
+    /// after the first has been polled (it must be a dynamic adapter value).
+    late_stack: bool,
     /// Run the same chain on the plain flavour next to the batched one and
     /// compare the flattened outputs (C13).
     twin: bool,
@@ -149,6 +154,7 @@ struct Model {
     /// per stage: latest announced limit (None: never announced / static)
     announced: Vec<Option<u8>>,
     lim_alive: Vec<bool>,
+    stacked: bool,
 }
 
 fn fresh(next_id: &mut u16, key: u8) -> Kid {
@@ -315,6 +321,7 @@ impl<E: El> Harness for AdpH<E> {
             next_id,
             announced: cfg.stages.iter().map(|_| None).collect(),
             lim_alive: cfg.stages.iter().map(|s| s.is_dynamic()).collect(),
+            stacked: !cfg.late_stack,
         }
     }
 
@@ -334,8 +341,14 @@ impl<E: El> Harness for AdpH<E> {
             if cfg.drop_vec && m.txn.is_none() {
                 out.push(Tok::DropVec);
             }
+            if !m.stacked && m.txn.is_none() {
+                out.push(Tok::Stack);
+            }
         }
         for (k, s) in cfg.stages.iter().enumerate() {
+            if k >= 1 && !m.stacked {
+                continue;
+            }
             if s.is_dynamic() && m.lim_alive[k] {
                 if cfg.limit_values.is_empty() {
                     for n in 0..=cfg.max_limit {
@@ -369,6 +382,7 @@ impl<E: El> Harness for AdpH<E> {
             Tok::SetLimit(k, n) => m.announced[k as usize] = Some(n),
             Tok::DropLimit(k) => m.lim_alive[k as usize] = false,
             Tok::Poll | Tok::Drain => {}
+            Tok::Stack => m.stacked = true,
             Tok::DropVec => m.alive = false,
         }
     }
